@@ -285,3 +285,48 @@ Definition det3m (m : list (list Q)) : Q :=
   | [[a1; a2; a3]; [b1; b2; b3]; [c1; c2; c3]] => det3 a1 a2 a3 b1 b2 b3 c1 c2 c3
   | _ => 0%Q
   end.
+
+(* ------------------------------------------------------------------ finite check of the boundary assignments *)
+Definition asg_row (s : nat * nat * nat * nat) : nat := fst (fst (fst s)).
+Definition asg_a (s : nat * nat * nat * nat) : nat := snd (fst (fst s)).
+Definition asg_b (s : nat * nat * nat * nat) : nat := snd (fst s).
+Definition asg_c (s : nat * nat * nat * nat) : nat := snd s.
+Definition rows_of (r : nat) (asg : list (nat * nat * nat * nat)) := filter (fun s => Nat.eqb (asg_row s) r) asg.
+
+Fixpoint list_eqb_nat (a b : list nat) : bool :=
+  match a, b with
+  | [], [] => true
+  | x :: a', y :: b' => Nat.eqb x y && list_eqb_nat a' b'
+  | _, _ => false
+  end.
+
+(* statement (r, a, b, c):  new_facets[r, t2f[a]] = m.t2f[b, child c].  Local facet b of template c must consist of
+   the node on parent facet a and of ONE endpoint e of parent facet a: Some e *)
+Definition stmt_end (rf : list (list nat)) (tpls : list (list nref)) (s : nat * nat * nat * nat) : option nat :=
+  let tpl := nth (asg_c s) tpls [] in
+  let lf := nth (asg_b s) rf [] in
+  let x := nth (nth 0 lf 0) tpl NC in let y := nth (nth 1 lf 0) tpl NC in
+  if (length lf =? 2) && (asg_c s <? length tpls) && (asg_a s <? length rf) then
+    match x, y with
+    | NV e, NF a' | NF a', NV e => if Nat.eqb a' (asg_a s) then Some e else None
+    | _, _ => None
+    end
+  else None.
+
+(* the statements at the same position of rows 0 and 1 address the same old facet and deliver its two different ends *)
+Definition pair_ok (rf : list (list nat)) (tpls : list (list nref)) (ss : (nat * nat * nat * nat) * (nat * nat * nat * nat)) : bool :=
+  match stmt_end rf tpls (fst ss), stmt_end rf tpls (snd ss) with
+  | Some e0, Some e1 =>
+      let lf := nth (asg_a (fst ss)) rf [] in
+      (length lf =? 2) &&
+      ((Nat.eqb e0 (nth 0 lf 0) && Nat.eqb e1 (nth 1 lf 0)) || (Nat.eqb e0 (nth 1 lf 0) && Nat.eqb e1 (nth 0 lf 0)))
+  | _, _ => false
+  end.
+
+(* rows 0 and 1 address the old facets in the same order (so that the same cell wins both rows of a shared facet), every
+   pair is right, every local facet is addressed, there are no other rows *)
+Definition bassign_ok (rf : list (list nat)) (tpls : list (list nref)) (asg : list (nat * nat * nat * nat)) : bool :=
+  forallb (pair_ok rf tpls) (combine (rows_of 0 asg) (rows_of 1 asg))
+  && list_eqb_nat (map asg_a (rows_of 0 asg)) (map asg_a (rows_of 1 asg))
+  && forallb (fun a => existsb (fun s => Nat.eqb (asg_a s) a) (rows_of 0 asg)) (seq 0 (length rf))
+  && forallb (fun s => asg_row s <? 2) asg.
